@@ -5,10 +5,15 @@ EXTENDS Naturals, Sequences, TLC, Json
 Contents == {"inline", "allow(unused)", "cfg(any(a, b = \"c\"))", "cfg_attr(test, allow(x))", "doc = \"text\"", "doc = concat!(\"a\", \"b\")",
              "instrument(skip_all, fields(x = value.x))", "test_case(1, 2 => 3)", "a::b::c(d)", "x = 1 + 2", "unsafe(no_mangle)", "derive_where(T: Clone; U)",
              "serde(rename = \"q\", default)", "rustfmt::skip"}
-Params == {"attribute", "impl_attribute", "inner_attribute"}
+\* foreign_type / foreign_member: the same content as somebody else's bare attribute on the deriving type / on its members (variants and payload
+\* fields): o2o must pass over it, whatever its tokens are, with both back-ends
+Params == {"attribute", "impl_attribute", "inner_attribute", "foreign_type", "foreign_member"}
 Names == {"map", "from_owned", "try_into", "into_existing", "ref_try_into_existing"}
 VARIABLE a
-Init == \E c \in Contents, p \in Params, n \in Names, dt \in {"struct", "enum"} : a = [c |-> c, p |-> p, n |-> n, dt |-> dt]
+\* (syn 1 itself cannot read `#[unsafe(..)]` as an attribute of the item - the derive input never reaches o2o - so that content stays inside parameters)
+Init == \E c \in Contents, p \in Params, n \in Names, dt \in {"struct", "enum"} :
+           /\ (p \in {"foreign_type", "foreign_member"} => c # "unsafe(no_mangle)")
+           /\ a = [c |-> c, p |-> p, n |-> n, dt |-> dt]
 Next == UNCHANGED a
 Spec == Init /\ [][Next]_a
 Emit == PrintT(<<"CASE", ToJson(a)>>)
